@@ -58,7 +58,7 @@ def job(args):
     ref = built[0]
     m = ref["m"]
     special = set(cdrv.special_bytes(ref["I"]))
-    inputs = []
+    inputs = [(list(x), [len(x)]) for x in gen.FEATURE_INPUTS.get(name, [])] + [(list(x), [1] * len(x)) for x in gen.FEATURE_INPUTS.get(name, [])]
     for k in range(8 if quick else 30):
         inp = cdrv.random_input(m, rng, maxlen=rng.choice([3, 8, 20, 40]), special=special)
         if inp:
@@ -115,6 +115,7 @@ def run(ctx):
         ast, src = gen.gen_program(random.Random(rng.getrandbits(48)), p)
         if "str" in src:
             stream.append(("sgen%d" % i, src, []))
+    stream += [(name, src, []) for name, src in gen.FEATURE_PROGRAMS if name != "feat-many-states"]
     for name, src, flags in stream:
         base = [f for f in flags if not f.startswith("-O")]
         I = export.Interner(empty_setstr_is_delete=True)      # shared by all variants of the program: primitive / test ids are comparable
@@ -123,6 +124,8 @@ def run(ctx):
             continue
         variants = [ref]
         sets = repr_sets(rng, 3 if quick else 8)
+        if name.startswith("feat-"):
+            sets += [["-fstrings-as-u8", "-O2"], ["-fallocate-str-space-dynamic", "-O2"], ["-fallocate-str-space-dynamic-on-demand", "-fstrings-as-u8", "-O2"]]
         if "str" in src and ("delete" in src or '= "";' in src):
             sets.append(["-fallocate-str-space-dynamic-on-demand", "-fdelete-string-free-memory", "-O2"])   # the heap mode with the most states
         def has_index(k):
